@@ -16,6 +16,20 @@ PROPS = {
   'thorough': {'cases': 128000, 'max_size': 400, 'exhaustive': True, 'wall_s': 1800, 'fuzz': {'runs': 150000, 'max_len': 600}},
   'essential_classes': ['tree:overflow-tree', 'element:overflow-tree', 'tree:buf-too-small', 'element:buf-too-small', 'parse:nested-mistiled', 'stream:complete', 'stream:truncated'],
   'assumptions': ['reference encoder/decoder in ref/tlv.cpp is correct (self-tested in setup)', 'clang ASan/UBSan report out-of-bounds accesses'],
+ }, 'C17': {
+  'technique': 'property-based testing (rapidcheck) with exhaustive corruption neighbourhoods against a reference base-32/CRC-32 codec',
+  'level_text': 'For each generated (time, algorithm, digest) the SDK string is compared with an independently written reference encoding and decoded back; '
+                'its complete single-symbol substitution neighbourhood (31 x length), all adjacent transpositions, all 256 byte values at several positions, '
+                'insert/delete/append, and all replaced algorithm bytes (CRC recomputed) are decoded and compared with the reference reading in which characters '
+                'outside the alphabet carry no bits. Exhaustive per sampled string, sampling over strings.',
+  'level_note': 'Trusted: ref/hash.cpp base-32 and CRC-32 (RFC 4648 / zlib known answers in setup), algorithm registry transcribed from hash.h.',
+  'rule': 'rapidcheck choice strings -> (publication time with boundary bias 0,1,2^32-1,2^32,2^63,2^64-1; algorithm among all registered ids; digest '
+          'bytes) -> reference string; each case checks the full corruption neighbourhood of that string (counts in sanity_counters). Every case is '
+          'non-trivial (it contains corruptions); distinct = distinct (algorithm, time, string prefix).',
+  'quick': {'cases': 96, 'max_size': 100, 'wall_s': 600},
+  'thorough': {'cases': 4000, 'max_size': 100, 'wall_s': 1800},
+  'essential_classes': ['candidates:substitution', 'candidates:transposition', 'candidates:byte-value', 'candidates:algorithm-byte', 'encode:ok'],
+  'assumptions': ['reference base-32 / CRC-32 / algorithm table correct (known-answer self-test)'],
  },
 }
 
